@@ -82,7 +82,9 @@ func executor(m *monitor) *kmipserver.BatchExecutor {
 	ex.Route(kmip.OperationRecover, kmipserver.HandleFunc(func(ctx context.Context, req *payloads.RecoverRequestPayload) (*payloads.RecoverResponsePayload, error) {
 		enter()
 		defer leave()
-		return &payloads.RecoverResponsePayload{UniqueIdentifier: req.UniqueIdentifier}, nil
+		// an item that names its object explicitly: resolving the identifier neither needs nor changes the placeholder
+		v, _ := kmipserver.GetIdOrPlaceholder(ctx, req.UniqueIdentifier)
+		return &payloads.RecoverResponsePayload{UniqueIdentifier: v}, nil
 	}))
 	return ex
 }
@@ -110,6 +112,15 @@ func program(r *core.Rand) []int {
 
 func build(reqID string, prog []int) *kmip.RequestMessage {
 	m := &kmip.RequestMessage{Header: kmip.RequestHeader{ProtocolVersion: kmip.V1_4, BatchCount: int32(len(prog))}}
+	// the optional Batch Order Option, absent / true / false by the request id (items are processed in order anyway)
+	switch core.Hash64(reqID) % 3 {
+	case 1:
+		t := true
+		m.Header.BatchOrderOption = &t
+	case 2:
+		f := false
+		m.Header.BatchOrderOption = &f
+	}
 	for i, a := range prog {
 		bi := kmip.RequestBatchItem{UniqueBatchItemID: []byte{byte(i + 1)}}
 		switch a {
@@ -122,7 +133,7 @@ func build(reqID string, prog []int) *kmip.RequestMessage {
 		case aSetEmpty:
 			bi.Operation, bi.RequestPayload = kmip.OperationGetAttributeList, &payloads.GetAttributeListRequestPayload{UniqueIdentifier: "e"}
 		default:
-			bi.Operation, bi.RequestPayload = kmip.OperationRecover, &payloads.RecoverRequestPayload{UniqueIdentifier: "n"}
+			bi.Operation, bi.RequestPayload = kmip.OperationRecover, &payloads.RecoverRequestPayload{UniqueIdentifier: reqID + ":explicit"}
 		}
 		m.BatchItem = append(m.BatchItem, bi)
 	}
@@ -159,6 +170,11 @@ func judge(c *core.Ctx, reqID string, prog []int, resp *kmip.ResponseMessage, vi
 			}
 			cur = ""
 			afterFail = false
+		case aNoop:
+			if pl, ok := resp.BatchItem[i].ResponsePayload.(*payloads.RecoverResponsePayload); ok && pl.UniqueIdentifier != reqID+":explicit" {
+				c.Violation("C15:explicit-identifier-replaced", fmt.Sprintf("item %d of request %s named its object explicitly and got %q resolved instead (%s)", i, reqID, pl.UniqueIdentifier, via), nil)
+				return
+			}
 		case aFail:
 			// the statement is silent on whether a failed item clears the value: both are accepted afterwards
 			lastBeforeFail = cur
@@ -355,7 +371,7 @@ func Spec() *core.Spec {
 		Level: "exploration",
 		Race:  true,
 		Rule: "seeded programs of 1-8 batch items over {set (value = request id + item index), read, fail, noop}; 2-64 goroutines issuing requests through BatchExecutor.HandleRequest at once (handlers yield so that items of different requests interleave; in half of the rounds a retry middleware runs the chain twice for a quarter of the requests) and 1-16 real server connections each sending a sequence of 6 requests; " +
-			"every read is checked against a per-request sequential register model starting empty; any value carrying another request's id is a leak, identified exactly; race reports whose stacks are the placeholder accessors are violations. a fifth action storing the empty value; reads through IdPlaceholder and through GetIdOrPlaceholder; a batch-splitting message middleware (chunks through separate continuation calls); distinct = distinct programs",
+			"every read is checked against a per-request sequential register model starting empty; any value carrying another request's id is a leak, identified exactly; race reports whose stacks are the placeholder accessors are violations. a fifth action storing the empty value; reads through IdPlaceholder and through GetIdOrPlaceholder; items resolving an explicit identifier in between; Batch Order Option absent/true/false; a batch-splitting message middleware (chunks through separate continuation calls); distinct = distinct programs",
 		Assumptions: []string{"after a failed item both the previous value and the empty value are accepted (the statement is silent on clearing)"},
 		Required:    []string{"requests.direct", "requests.wire", "reads", "handler_overlaps", "connections", "retried_requests", "split_requests", "empty_value_stored_over_a_value"},
 		RaceVerdict: func(r core.RaceReport) (string, bool) {
